@@ -5,7 +5,7 @@ PROPERTY = 'C03'
 THEOREMS = ['Sched.no_deadlock', 'Sched.clean_exit', 'Sched.raises_iff_cyclic', 'Sched.InvC_step', 'Sched.InvC_init', 'Sched.Inv_reach', 'Sched.bounded_executions', 'Sched.always_terminates', 'Sched.mu_decreases', 'Sched.InvG_step']
 BUDGET = {'quick': 250, 'thorough': 6000}
 TIME_LIMIT = {'quick': 55, 'thorough': 700}
-RULE = ('cyclic graphs, stale FAILED/SKIPPED/PENDING entries, repeated calls on the same backend' + '; the real QueueScheduling backend runs under the controlled scheduler; non-trivial = '
+RULE = ('cyclic graphs (cycle made of hard edges, of soft edges, or closed by one soft edge), stale FAILED/SKIPPED/PENDING entries, repeated calls on the same backend (40% with another graph), all outcome kinds including SystemExit and non-final statuses' + '; the real QueueScheduling backend runs under the controlled scheduler; non-trivial = '
         '>= 3 tasks with >= 2 edges on >= 2 workers, or a special feature (cycle, stale entries, same backend, lost '
         'entries, several rounds); distinct = case hash')
 CORRESPONDS = sc.CORRESPONDS
